@@ -116,7 +116,9 @@ def bounded_replay(tier, seed):
     from multidecoder.multidecoder import Multidecoder
 
     inputs = [b"x = strlen(a); StrLen(b); STRLEN(c)", b"cmd /c powershell -enc ZQBjAGgAbwAgAGIAZQBlAA== http://example.com/a?b=1", b"CreateObject(WScript.Shell) GetProcAddress LoadLibraryA kernel32.dll",
-              b"VirtualAlloc virtualalloc memcpy MemCpy strcpy http://1.2.3.4/x.exe", b"atob('aHR0cDovL2V4YW1wbGUuY29tL2E=') WriteProcessMemory writeprocessmemory"]
+              b"VirtualAlloc virtualalloc memcpy MemCpy strcpy http://1.2.3.4/x.exe", b"atob('aHR0cDovL2V4YW1wbGUuY29tL2E=') WriteProcessMemory writeprocessmemory",
+              # an obfuscated form, then EXACTLY its normalised text as a later input of the same scanner: the second result must not depend on the first
+              b"c:\\temp\\foo\\..\\test-file", b"c:\\temp\\test-file", b"http://0254.0xd9a6ae/", b"172.217.166.174", b"c^m^d c^omman^d", b"cmd command"]
     blob = b"\n====\n".join(inputs)
     env0 = dict(os.environ, VERIF_SRC_DIR=SRC)
     runs = {}
